@@ -12,12 +12,13 @@ Has(f) == f \in DOMAIN E
 Arg(f) == IF Has(f) THEN E[f] ELSE ""
 
 TReset == IsEv("Reset") /\ login' = "none" /\ nsess' = 0 /\ pin' = InitPin /\ open' = [t \in Threads |-> FALSE]
-          /\ pend' = [t \in Threads |-> Idle] /\ bn' = E.b
+          /\ pend' = [t \in Threads |-> Idle] /\ nkey' = 0 /\ nracy' = 0 /\ skey' = 0 /\ bn' = E.b
 TInv   == IsEv("Inv") /\ Inv(E.t, E.c, Arg("a"), Arg("b")) /\ UNCHANGED bn
 TLin   == l <= Len(T) /\ (\E t \in Threads : Lin(t)) /\ UNCHANGED <<l, bn>>
 TRet   == IsEv("Ret") /\ Ret(E.t, E.c, E.rv, Arg("st")) /\ UNCHANGED bn
           /\ (PurgedByLogout(E.t, E.c, E.rv) => PrintT(<<"DEV", bn, "LogoutSplit">>))
-TFinal == IsEv("Final") /\ Final(E.st, E.pin) /\ UNCHANGED <<vars, bn>>
+TFinal == IsEv("Final") /\ Final(E.st, E.pin, E.nkeys, E.bad, E.plain) /\ UNCHANGED <<vars, bn>>
+          /\ (E.bad > 0 \/ E.nkeys # nkey => PrintT(<<"DEV", bn, "LogoutSplit">>))
 
 TInit == Init /\ l = 1 /\ bn = 0 /\ TLCSet(1, 1)
 TNext == TReset \/ TInv \/ TLin \/ TRet \/ TFinal
